@@ -235,6 +235,13 @@ def rule_shared_default(ctx: Ctx) -> None:
 # --------------------------------------------------------------------------- D3 effect.hof-copy
 
 
+def parent_loop(node):
+    q = parent(node)
+    while q is not None and not isinstance(q, (ast.For, ast.While, ast.FunctionDef)):
+        q = parent(q)
+    return q
+
+
 def _is_copy(e: ast.AST) -> bool:
     return isinstance(e, ast.Call) and call_attr(e) in ("copy", "deepcopy")
 
@@ -287,8 +294,12 @@ def rule_hof_copy(ctx: Ctx) -> None:
         apps = [c for c in calls_in(fn) if call_attr(c) == "append" and norm(c.func.value) == v.id and c.args]
         if not apps:
             raise AnalysisError(f"tournament_selection: how `{v.id}` is filled was not recognised")
+        from ..core import deref as _deref
         for c in apps:
-            if _is_copy(c.args[0]):
+            if _is_copy(_deref(fn, c.args[0])) and isinstance(parent_loop(c), (ast.For, ast.While)) and (not isinstance(c.args[0], ast.Name) or any(
+                    isinstance(a, ast.Assign) and any(isinstance(t, ast.Name) and t.id == c.args[0].id for t in a.targets) for a in ast.walk(parent_loop(c)))):
+                ctx.ok("effect.hof-copy", m, c)      # the copy is made inside the per-member loop (directly or under a name bound there)
+            elif _is_copy(c.args[0]):
                 ctx.ok("effect.hof-copy", m, c)
             elif whole_copy is not None:
                 ctx.fail("effect.hof-copy", m, whole_copy,
